@@ -369,3 +369,74 @@ def typed_program(L, tab, rng, n_steps=30):
     m.functions = [[0, 0, 0, len(body), nlocals, 0], [1, 1, len(body), len(helper), 1, 2]]
     m.entry = 0
     return m
+
+
+def heap_idioms(L, tab):
+    """exhaustive small family: every container kind x fresh (unshared) heap element kinds x every access
+    opcode x {temporary container, container also held in a local}; each as one straight-line `main`"""
+    names = {nm: op for op, (nm, ops) in tab.items()}
+    E = lambda nm, *vals: nvm.encode_instr(names[nm], [v & ((1 << 64) - 1) for v in vals], tab)
+    strings = [b"main", b"ab", b"cd", b"", b"xyz"]
+
+    def fresh(kind):
+        if kind == "str":      # a string nobody else references: "ab" ++ "cd"
+            return E("PUSH_STR", 1) + E("PUSH_STR", 2) + E("STR_CONCAT")
+        if kind == "str2":
+            return E("PUSH_I64", 12345) + E("CAST_STRING")
+        if kind == "arr":
+            return E("PUSH_I64", 1) + E("PUSH_I64", 2) + E("ARR_LITERAL", 1, 2)
+        if kind == "arrs":     # array of fresh strings
+            return fresh("str") + fresh("str2") + E("ARR_LITERAL", 5, 2)
+        if kind == "tuple":
+            return fresh("str") + E("PUSH_I64", 7) + E("TUPLE_NEW", 2)
+        if kind == "int":
+            return E("PUSH_I64", 42)
+        if kind == "lit":      # interned literal (shared with later pushes)
+            return E("PUSH_STR", 4)
+        raise ValueError(kind)
+
+    elems = ["str", "str2", "arr", "arrs", "tuple", "int", "lit"]
+    progs = []
+    for e1 in elems:
+        for e2 in ("str", "int", "arr"):
+            for e3 in ("str2", "lit"):
+                build3 = fresh(e1) + fresh(e2) + fresh(e3)
+                containers = {
+                    "struct": build3 + E("STRUCT_LITERAL", 0, 3),
+                    "tuple": build3 + E("TUPLE_NEW", 3),
+                    "union": build3 + E("UNION_CONSTRUCT", 0, 1, 3),
+                    "array": build3 + E("ARR_LITERAL", 5, 3),
+                    "closure": build3 + E("CLOSURE_NEW", 1, 3),
+                }
+                for cname, cbuild in containers.items():
+                    accesses = []
+                    if cname == "struct":
+                        accesses = [("get%d" % i, E("STRUCT_GET", i)) for i in range(3)] + \
+                                   [("set%d" % i, fresh("str") + E("STRUCT_SET", i)) for i in (0, 2)]
+                    elif cname == "tuple":
+                        accesses = [("get%d" % i, E("TUPLE_GET", i)) for i in range(3)]
+                    elif cname == "union":
+                        accesses = [("field%d" % i, E("UNION_FIELD", i)) for i in range(3)] + [("tag", E("UNION_TAG"))]
+                    elif cname == "array":
+                        accesses = [("at%d" % i, E("PUSH_I64", i) + E("ARR_GET")) for i in range(3)] + \
+                                   [("slice%d_%d" % (a, b), E("PUSH_I64", a) + E("PUSH_I64", b) + E("ARR_SLICE")) for a, b in ((0, 2), (1, 3), (2, 3), (1, 2), (0, 3), (3, 3))] + \
+                                   [("remove%d" % i, E("PUSH_I64", i) + E("ARR_REMOVE")) for i in (0, 1, 2)] + \
+                                   [("set%d" % i, E("PUSH_I64", i) + fresh("str") + E("ARR_SET")) for i in (0, 2)] + \
+                                   [("pop", E("ARR_POP") + E("POP")), ("push", fresh("str") + E("ARR_PUSH")), ("len", E("ARR_LEN")),
+                                    ("selfpush", E("DUP") + E("ARR_PUSH"))]
+                    elif cname == "closure":
+                        accesses = [("call", E("PUSH_I64", 5) + E("SWAP") + E("CALL_INDIRECT")), ("ccall", E("PUSH_I64", 5) + E("SWAP") + E("CLOSURE_CALL"))]
+                    for aname, acode in accesses:
+                        for shared in (False, True):
+                            # shared: keep a second reference to the container in local 0 while it is accessed
+                            pre = cbuild + (E("DUP") + E("STORE_LOCAL", 0) if shared else b"")
+                            post = E("PRINTLN") if aname not in ("pop",) else E("PRINTLN")
+                            tail = (E("LOAD_LOCAL", 0) + E("PRINTLN") if shared else b"")
+                            body = pre + acode + post + tail + fresh("str") + E("PRINTLN") + E("PUSH_I64", 0) + E("RET")
+                            helper = E("LOAD_UPVALUE", 0, 0) + E("PRINTLN") + E("LOAD_UPVALUE", 0, 2) + E("POP") + E("LOAD_LOCAL", 0) + E("PUSH_I64", 1) + E("ADD") + E("RET")
+                            m = nvm.Mod()
+                            m.strings = list(strings) + [b"inc"]
+                            m.code = body + helper
+                            m.functions = [[0, 0, 0, len(body), 2, 0], [5, 1, len(body), len(helper), 1, 3]]
+                            progs.append(("idiom:%s[%s,%s,%s].%s%s" % (cname, e1, e2, e3, aname, ".shared" if shared else ""), m.build(L)))
+    return progs
